@@ -31,7 +31,23 @@ class C05(ChanSpec):
             lines += [l for l in so.split("\n") if l]
             if rc != 0:
                 lines.append("C05L crash harness-exit-%d %s" % (rc, se[-200:].replace("\n", " ")))
+        # the shipped idle handlers are part of most pipelines: the lifecycle events must pass them unchanged (histories on a
+        # virtual clock, incl. an inactive event that reaches an idle handler which never saw the active event)
+        rc, so, se = core.run([os.path.join(core.BIN, "nvhc"), "-prop", "C20", "-seed", str(seed + 5), "-count", str(400 if tier == "quick" else 20000)], timeout=self.harness_timeout[tier])
+        lines += [l for l in so.split("\n") if l]
+        if rc != 0:
+            lines.append("C20 crash harness-exit-%d" % rc)
         return lines
+
+    def nontrivial(self, line, answer):
+        if line.startswith("C20 "):
+            return "inact=" in line
+        return super().nontrivial(line, answer)
+
+    def extra_coverage(self, pairs):
+        d = super().extra_coverage([(l, a) for l, a in pairs if not l.startswith("C20 ")])
+        d["input_distribution"]["idle_handler_lifecycle_ops"] = sum(1 for l, a in pairs if l.startswith("C20 ") and "inact=" in l)
+        return d
 
 
 SPEC = C05()
